@@ -15,7 +15,7 @@ import os
 from fractions import Fraction
 
 from .values import (
-    App, BoundMethod, BuiltinV, ClassMethodV, ClassV, Cond, DictV, Ext, FuncV, Lin, ListOf, ListV,
+    App, BoundMethod, BuiltinV, ClassMethodV, ClassV, Cond, ConstObj, DictV, Ext, FuncV, Lin, ListOf, ListV,
     IterV, LazyV, UNRESOLVED, ModuleV, Obj, PartialV, PropertyV, SetV, StaticV, SuperV, Sym, SymStr, Unsupported, cmp_cond,
     fresh_id, is_num, num_add, num_div, num_mul, show, str_concat, vkey,
 )
@@ -84,6 +84,7 @@ class Chooser:
     def __init__(self, prefix=()):
         self.prefix = list(prefix)
         self.log = []  # (n_options, chosen, label)
+        self.cleanups = []  # run when the path is finished (suspended generators are released)
 
     def choose(self, n, label=None):
         i = len(self.log)
@@ -94,12 +95,173 @@ class Chooser:
         return c
 
     def next_prefix(self):
+        for c in self.cleanups:
+            c()
+        self.cleanups = []
         log = self.log
         for i in range(len(log) - 1, -1, -1):
             n, c, _ = log[i]
             if c + 1 < n:
                 return [x[1] for x in log[:i]] + [c + 1]
         return None
+
+
+class _Abandon(BaseException):
+    """unwinds a suspended generator whose path is over (nothing it does is observed any more)"""
+
+
+class GenV:
+    """A generator object: its body runs lazily, interleaved with its consumer exactly as in Python.
+    The body lives on a thread of its own that only ever runs while the consumer waits for it (strict
+    hand-over, never concurrently), so the interpreter state needs no locking."""
+
+    def __init__(self, interp, f, fr, node):
+        import threading
+
+        self.interp = interp
+        self.f = f
+        self.fr = fr
+        self.node = node
+        self.state = "created"  # created | suspended | running | done
+        self.saved = [fr]
+        self.to_gen = threading.Semaphore(0)
+        self.to_cons = threading.Semaphore(0)
+        self.msg = None
+        self.out = None
+        self.thread = None
+        self.uid = fresh_id()
+        fr.gen = self
+        interp.live_gens.append(self)
+
+    def __repr__(self):
+        return f"<generator {self.f.qualname} ({self.state})>"
+
+    def __deepcopy__(self, memo):
+        if self.state in ("created", "suspended"):
+            raise Unsupported(f"a suspended generator ({self.f.qualname}) is stored in the analysed heap")
+        return self
+
+    # ---- consumer side
+    def resume(self, msg, node):
+        it = self.interp
+        if self.state == "done":
+            if msg[0] == "close":
+                return ("closed",)
+            if msg[0] == "throw":
+                raise AbsRaise(msg[1], it.site(node), True)
+            raise AbsRaise(it.make_exc("StopIteration"), it.site(node), True)
+        if self.state == "running":
+            raise AbsRaise(it.make_exc("ValueError", "generator already executing"), it.site(node), True)
+        if self.state == "created" and msg[0] in ("close", "throw"):
+            self.state = "done"
+            if msg[0] == "throw":
+                raise AbsRaise(msg[1], it.site(node), True)
+            return ("closed",)
+        if self.state == "created" and msg[0] == "send" and msg[1] is not None:
+            raise AbsRaise(it.make_exc("TypeError", "can't send non-None value to a just-started generator"), it.site(node), True)
+        base = len(it.frames)
+        it.frames.extend(self.saved)
+        depth0 = it.depth
+        self.msg = msg
+        started = self.state == "suspended"
+        self.state = "running"
+        if started:
+            self.to_gen.release()
+        else:
+            import threading
+
+            self.thread = threading.Thread(target=self._run, daemon=True)
+            self.thread.start()
+        self.to_cons.acquire()
+        self.saved = it.frames[base:]
+        del it.frames[base:]
+        it.depth = depth0
+        out = self.out
+        self.out = None
+        if out[0] == "yield":
+            self.state = "suspended"
+            return out
+        self.state = "done"
+        if self in it.live_gens:
+            it.live_gens.remove(self)
+        if out[0] == "raise":
+            raise out[1]
+        return out
+
+    def next(self, node, value=None):
+        out = self.resume(("send", value), node)
+        if out[0] == "yield":
+            return out[1]
+        e = self.interp.make_exc("StopIteration")
+        e.fields["value"] = out[1]
+        if out[1] is not None:
+            e.fields["args"] = (out[1],)
+        raise AbsRaise(e, self.interp.site(node), True)
+
+    def throw(self, exc, node):
+        out = self.resume(("throw", exc), node)
+        if out[0] == "yield":
+            return out[1]
+        e = self.interp.make_exc("StopIteration")
+        e.fields["value"] = out[1]
+        raise AbsRaise(e, self.interp.site(node), True)
+
+    def close(self, node):
+        try:
+            out = self.resume(("close",), node)
+        except AbsRaise as ar:
+            if isinstance(ar.exc, Obj) and ar.exc.cls.name in ("GeneratorExit", "StopIteration"):
+                return None
+            raise
+        if out[0] == "yield":
+            raise AbsRaise(self.interp.make_exc("RuntimeError", "generator ignored GeneratorExit"), self.interp.site(node), True)
+        return None
+
+    def abandon(self):
+        if self.state == "suspended":
+            self.msg = ("abandon",)
+            self.state = "running"
+            self.to_gen.release()
+            self.to_cons.acquire()
+            self.state = "done"
+
+    # ---- generator side
+    def _run(self):
+        it = self.interp
+        try:
+            try:
+                it.exec_block(self.f.node.body, self.fr)
+                self.out = ("return", None)
+            except ReturnEx as r:
+                self.out = ("return", r.value)
+        except _Abandon:
+            self.out = ("abandoned",)
+        except AbsRaise as ar:
+            if self.msg is not None and self.msg[0] == "close" and isinstance(ar.exc, Obj) and ar.exc.cls.name == "GeneratorExit":
+                self.out = ("closed",)
+            elif isinstance(ar.exc, Obj) and ar.exc.cls.name == "StopIteration":
+                # PEP 479
+                self.out = ("raise", AbsRaise(it.make_exc("RuntimeError", "generator raised StopIteration"), ar.site, True))
+            else:
+                self.out = ("raise", ar)
+        except BaseException as e:  # PathAbort, Unsupported, internal errors: re-raised in the consumer
+            self.out = ("raise", e)
+        self.to_cons.release()
+
+    def do_yield(self, v, node):
+        it = self.interp
+        self.out = ("yield", v)
+        self.to_cons.release()
+        self.to_gen.acquire()
+        m = self.msg
+        if m[0] == "send":
+            return m[1]
+        if m[0] == "throw":
+            raise AbsRaise(m[1], it.site(node), True)
+        if m[0] == "close":
+            raise AbsRaise(it.make_exc("GeneratorExit"), it.site(node), True)
+        it.dead = True
+        raise _Abandon()
 
 
 # ----------------------------------------------------------------------------------------
@@ -148,7 +310,7 @@ class Program:
 
 # ----------------------------------------------------------------------------------------
 class Frame:
-    __slots__ = ("locals", "func", "module", "closure", "mangle", "owner", "self_arg", "is_class", "globals_decl", "site_fn", "yields")
+    __slots__ = ("locals", "func", "module", "closure", "mangle", "owner", "self_arg", "is_class", "globals_decl", "nonlocal_decl", "site_fn", "yields", "gen")
 
     def __init__(self, module, func=None, closure=(), mangle=None, owner=None, is_class=False):
         self.locals = {}
@@ -159,8 +321,10 @@ class Frame:
         self.owner = owner
         self.self_arg = None
         self.yields = None
+        self.gen = None
         self.is_class = is_class
         self.globals_decl = set()
+        self.nonlocal_decl = set()
         self.site_fn = func.qualname if func is not None else "<module>"
 
 
@@ -208,6 +372,21 @@ class Interp:
         self.builtins = program._builtins
         self.steps = 0
         self.max_steps = 400000
+        self.live_gens = []
+        self.dead = False
+        self.chooser.cleanups.append(self.finish)
+
+    def as_exc(self, v, node):
+        """exception instance from what a raise statement / throw() was given"""
+        if isinstance(v, ClassV):
+            return self.instantiate(v, [], {}, node)
+        return v
+
+    def finish(self):
+        """the path is over: suspended generators are unwound without being observed"""
+        for g in list(self.live_gens):
+            g.abandon()
+        self.live_gens = []
 
     # ------------------------------------------------------------------ utilities
     def site(self, node):
@@ -217,6 +396,8 @@ class Interp:
 
     def emit(self, kind, name, args=(), kwargs=None, node=None, extra=None, callee=None):
         ev = Ev(kind, name, args, kwargs, self.site(node) if node is not None else None, extra, callee)
+        if self.dead:
+            return ev
         self.trace.append(ev)
         if name == "hal.waitForNotifierAlarm":
             self.ticks += 1
@@ -229,6 +410,8 @@ class Interp:
         raise Unsupported(msg, node, fr.module.filename if fr else None)
 
     def choose(self, n, label=None):
+        if self.dead:
+            return 0
         if self.load_mode:
             raise Unsupported(f"choice during module load: {label}")
         return self.chooser.choose(n, label)
@@ -288,6 +471,8 @@ class Interp:
             return len(v.items) > 0
         if isinstance(v, ListOf):
             return self.decide(("nonempty", v.uid), node)
+        if self.is_flag(v):
+            return v.fields["value"] != 0
         if isinstance(v, Obj):
             c, f = v.cls.lookup("__bool__")
             if f is not None:
@@ -311,7 +496,7 @@ class Interp:
             if v.role in ("module", "class", "function", "instance", "userfn", "bound"):
                 return True
             return self.decide(("truthy", ("ext", v.uid), v.path), node)
-        if isinstance(v, (FuncV, BoundMethod, BuiltinV, ClassV, ModuleV, PartialV, PropertyV)):
+        if isinstance(v, (FuncV, BoundMethod, BuiltinV, ClassV, ModuleV, PartialV, PropertyV, GenV)):
             return True
         self.unsupported(f"truthiness of {v!r}", node)
 
@@ -395,6 +580,9 @@ class Interp:
 
     def x_Global(self, s, fr):
         fr.globals_decl.update(s.names)
+
+    def x_Nonlocal(self, s, fr):
+        fr.nonlocal_decl.update(self.mangle(n, fr) for n in s.names)
 
     def x_Import(self, s, fr):
         for a in s.names:
@@ -483,15 +671,87 @@ class Interp:
     def finish_class(self, cls, node=None):
         """__set_name__ protocol for members that define it."""
         if any(isinstance(b, Ext) and b.path.startswith("enum.") for c in cls.mro for b in c.bases):
-            # enum members: one singleton object per name (identity comparisons work as in Python)
-            for k, v in list(cls.ns.items()):
-                if isinstance(k, str) and not k.startswith("_") and not isinstance(v, (FuncV, PropertyV, StaticV, ClassMethodV, BuiltinV)):
-                    cls.ns[k] = Obj(cls, {"name": k, "value": v, "_name_": k, "_value_": v}, label=f"{cls.name}.{k}")
+            self.finish_enum(cls)
         for k, v in list(cls.ns.items()):
             if isinstance(v, Obj):
                 c, f = v.cls.lookup("__set_name__")
                 if f is not None and v.cls.qualname not in self.record_ctor:
                     self.call(self.bind(f, v, c), [cls, k], {}, node)
+
+    def finish_enum(self, cls):
+        """enum members: one immutable singleton per name (identity comparisons work as in Python); for Flag
+        classes every combination of bits is one canonical object as well"""
+        paths = [b.path for c in cls.mro for b in c.bases if isinstance(b, Ext) and b.path.startswith("enum.")]
+        is_flag = any(p in ("enum.Flag", "enum.IntFlag") for p in paths)
+        members = {}
+        last = None
+        for k, v in list(cls.ns.items()):
+            if not isinstance(k, str) or k.startswith("_") or isinstance(v, (FuncV, PropertyV, StaticV, ClassMethodV, BuiltinV)):
+                continue
+            if isinstance(v, Ext) and v.path.startswith("enum.auto"):
+                if is_flag:
+                    hi = max([m.fields["value"] for m in members.values() if isinstance(m.fields["value"], int)] + [0])
+                    v = 1 << hi.bit_length() if hi else 1
+                else:
+                    v = last + 1 if isinstance(last, int) else 1
+            last = v
+            same = next((m for m in members.values() if type(m.fields["value"]) is type(v) and isinstance(v, (int, str)) and m.fields["value"] == v), None)
+            m = same or ConstObj(cls, {"name": k, "value": v, "_name_": k, "_value_": v}, label=f"{cls.name}.{k}")
+            cls.ns[k] = m
+            members[k] = m
+        cls.enum_members = members
+        cls.flag_table = {m.fields["value"]: m for m in members.values() if isinstance(m.fields["value"], int)} if is_flag else None
+
+    def flag_of(self, cls, value):
+        t = cls.flag_table
+        if value not in t:
+            names = "|".join(k for k, m in cls.enum_members.items() if isinstance(m.fields["value"], int) and m.fields["value"] and m.fields["value"] & value == m.fields["value"])
+            t[value] = ConstObj(cls, {"name": names or None, "value": value, "_name_": names or None, "_value_": value}, label=f"{cls.name}({value})")
+        return t[value]
+
+    def enum_lookup(self, cls, args, node):
+        if len(args) != 1:
+            self.unsupported("functional enum API", node)
+        v = self.force(args[0], node)
+        if isinstance(v, ConstObj) and v.cls is cls:
+            return v
+        if cls.flag_table is not None and isinstance(v, int) and not isinstance(v, bool):
+            mask = 0
+            for m in cls.enum_members.values():
+                mask |= m.fields["value"]
+            if v & ~mask == 0:
+                return self.flag_of(cls, v)
+        else:
+            for m in cls.enum_members.values():
+                if self.equal(m.fields["value"], v, node) is True:
+                    return m
+            if not isinstance(v, (int, str)):
+                self.unsupported(f"enum lookup by {v!r}", node)
+        raise AbsRaise(self.make_exc("ValueError", f"{v!r} is not a valid {cls.name}"), self.site(node), True)
+
+    def is_flag(self, v):
+        return isinstance(v, ConstObj) and getattr(v.cls, "flag_table", None) is not None
+
+    BINOP_DUNDER = {"Add": "add", "Sub": "sub", "Mult": "mul", "Div": "truediv", "Mod": "mod", "BitXor": "xor", "BitAnd": "and", "BitOr": "or",
+                    "LShift": "lshift", "RShift": "rshift", "FloorDiv": "floordiv", "Pow": "pow", "MatMult": "matmul"}
+
+    def obj_binop(self, op, a, b, node):
+        """operators on instances: Flag members by value, repository classes through their own dunder methods"""
+        name = self.BINOP_DUNDER.get(type(op).__name__)
+        if self.is_flag(a) and self.is_flag(b) and a.cls is b.cls and name in ("or", "and", "xor"):
+            x, y = a.fields["value"], b.fields["value"]
+            return self.flag_of(a.cls, x | y if name == "or" else x & y if name == "and" else x ^ y)
+        if name is None:
+            return NotImplemented
+        if isinstance(a, Obj):
+            c, f = a.cls.lookup(f"__{name}__")
+            if isinstance(f, FuncV):
+                return self.call(self.bind(f, a, c), [b], {}, node)
+        if isinstance(b, Obj):
+            c, f = b.cls.lookup(f"__r{name}__")
+            if isinstance(f, FuncV):
+                return self.call(self.bind(f, b, c), [a], {}, node)
+        return NotImplemented
 
     def x_Return(self, s, fr):
         raise ReturnEx(self.eval(s.value, fr) if s.value is not None else None)
@@ -737,6 +997,15 @@ class Interp:
         """-> ('known', [items]) or ('generic', source)"""
         if isinstance(it, (tuple, list)):
             return "known", list(it)
+        if isinstance(it, GenV):
+            out = []
+            while True:
+                try:
+                    out.append(it.next(node))
+                except AbsRaise as ar:
+                    if self.is_stop(ar):
+                        return "known", out
+                    raise
         if isinstance(it, (ListV, SetV)):
             stars = [x for x in it.items if isinstance(x, tuple) and len(x) == 2 and x[0] == "*" and not isinstance(x[1], (str, int))]
             if stars:
@@ -809,6 +1078,8 @@ class Interp:
 
     def x_For(self, s, fr):
         it = self.eval(s.iter, fr)
+        if isinstance(it, GenV):
+            return self.for_generator(s, fr, it)
         kind, items = self.iterate(it, s)
         broke = False
         if kind == "known":
@@ -838,6 +1109,39 @@ class Interp:
                 except ContinueEx:
                     continue
             self.emit("loop_end", "for", node=s, extra="break" if broke else None)
+        if not broke:
+            self.exec_block(s.orelse, fr)
+
+    def for_generator(self, s, fr, gen):
+        """for-loop over a generator object: one resumption per iteration, the body in between (as in Python)"""
+        self.emit("loop_begin", "for", [None], node=s, extra=("lazy", gen))
+        broke = False
+        i = 0
+        try:
+            while True:
+                try:
+                    x = gen.next(s)
+                except AbsRaise as ar:
+                    if self.is_stop(ar):
+                        break
+                    raise
+                self.assign(s.target, x, fr)
+                self.emit("loop_iter", "for", [i], node=s)
+                i += 1
+                try:
+                    self.exec_block(s.body, fr)
+                except BreakEx:
+                    broke = True
+                    break
+                except ContinueEx:
+                    continue
+        except (AbsRaise, ReturnEx):
+            if isinstance(s.iter, ast.Call) and gen.state == "suspended":
+                gen.close(s)  # a temporary generator is finalised as soon as the loop is left
+            raise
+        if broke and isinstance(s.iter, ast.Call) and gen.state == "suspended":
+            gen.close(s)
+        self.emit("loop_end", "for", node=s, extra="break" if broke else None)
         if not broke:
             self.exec_block(s.orelse, fr)
 
@@ -887,6 +1191,12 @@ class Interp:
         name = self.mangle(name, fr)
         if name in fr.globals_decl:
             fr.module.ns[name] = v
+        elif name in fr.nonlocal_decl:
+            for d in fr.closure:
+                if name in d:
+                    d[name] = v
+                    return
+            self.unsupported(f"nonlocal {name} not bound in an enclosing scope")
         else:
             fr.locals[name] = v
 
@@ -1036,6 +1346,19 @@ class Interp:
             return num_mul(-1, self.as_num(v, e))
         if isinstance(e.op, ast.UAdd):
             return self.as_num(v, e)
+        if isinstance(e.op, ast.Invert):
+            if self.is_flag(v):
+                mask = 0
+                for m in v.cls.enum_members.values():
+                    mask |= m.fields["value"]
+                return self.flag_of(v.cls, mask & ~v.fields["value"])
+            if isinstance(v, int):
+                return ~int(v)
+            if isinstance(v, Obj):
+                c, f = v.cls.lookup("__invert__")
+                if isinstance(f, FuncV):
+                    return self.call(self.bind(f, v, c), [], {}, e)
+            return App("invert", (self.as_num(v, e),))
         self.unsupported("unary op", e)
 
     def as_num(self, v, node):
@@ -1060,6 +1383,10 @@ class Interp:
         return self.binop(e.op, a, b, e)
 
     def binop(self, op, a, b, node):
+        if isinstance(a, Obj) or isinstance(b, Obj):
+            r = self.obj_binop(op, a, b, node)
+            if r is not NotImplemented:
+                return r
         if isinstance(op, ast.Add):
             if isinstance(a, (str, SymStr)) or isinstance(b, (str, SymStr)) or (isinstance(a, Sym) and a.kind == "str") or (isinstance(b, Sym) and b.kind == "str"):
                 return str_concat(self.to_str(a), self.to_str(b))
@@ -1239,6 +1566,13 @@ class Interp:
             return Cond(("in", vkey(item), vkey(cont) if not isinstance(cont, ListOf) else ("listof", cont.uid)))
         elif isinstance(cont, Obj) and cont.cls.name == "_dictview":
             return self.contains(cont.fields["target_dict"], item, node)
+        elif self.is_flag(cont):
+            if not (self.is_flag(item) and item.cls is cont.cls):
+                raise AbsRaise(self.make_exc("TypeError", "unsupported operand type(s) for 'in'"), self.site(node), True)
+            return item.fields["value"] & cont.fields["value"] == item.fields["value"]
+        elif isinstance(cont, Obj) and isinstance(cont.cls.lookup("__contains__")[1], FuncV):
+            c, f = cont.cls.lookup("__contains__")
+            return self.truth(self.call(self.bind(f, cont, c), [item], {}, node), node)
         else:
             self.unsupported(f"'in' on {cont!r}", node)
         unknown = []
@@ -1379,19 +1713,39 @@ class Interp:
                 self.comp(gens, i + 1, sub, emit, node)
 
     def _gen_frame(self, fr, node):
-        if getattr(fr, "yields", None) is None:
-            self.unsupported("yield outside an eagerly evaluated generator", node)
-        return fr
+        if getattr(fr, "gen", None) is None:
+            self.unsupported("yield outside a generator function body", node)
+        return fr.gen
+
+    def is_stop(self, ar):
+        return isinstance(ar.exc, Obj) and ar.exc.cls.name == "StopIteration"
 
     def e_Yield(self, e, fr):
-        self._gen_frame(fr, e).yields.append(self.eval(e.value, fr) if e.value is not None else None)
-        return None
+        g = self._gen_frame(fr, e)
+        return g.do_yield(self.eval(e.value, fr) if e.value is not None else None, e)
 
     def e_YieldFrom(self, e, fr):
-        kind, items = self.iterate(self.eval(e.value, fr), e)
+        g = self._gen_frame(fr, e)
+        src = self.eval(e.value, fr)
+        if isinstance(src, GenV):
+            sent = None
+            while True:
+                try:
+                    y = src.next(e, sent)
+                except AbsRaise as ar:
+                    if self.is_stop(ar):
+                        return ar.exc.fields.get("value")
+                    raise
+                try:
+                    sent = g.do_yield(y, e)
+                except AbsRaise:
+                    src.close(e)
+                    raise
+        kind, items = self.iterate(src, e)
         if kind != "known":
             self.unsupported("yield from an iterable of unknown length", e)
-        self._gen_frame(fr, e).yields.extend(items)
+        for x in items:
+            g.do_yield(x, e)
         return None
 
     def e_NamedExpr(self, e, fr):
@@ -1457,6 +1811,18 @@ class Interp:
         return r
 
     def _getattr(self, obj, name, node):
+        if isinstance(obj, GenV):
+            g = obj
+            table = {
+                "__next__": lambda i, a, k, n: g.next(n),
+                "send": lambda i, a, k, n: g.next(n, a[0]),
+                "throw": lambda i, a, k, n: g.throw(i.as_exc(a[0], n), n),
+                "close": lambda i, a, k, n: g.close(n),
+                "__iter__": lambda i, a, k, n: g,
+            }
+            if name in table:
+                return BuiltinV(f"generator.{name}", table[name])
+            return MISSING
         if isinstance(obj, Obj):
             if name == "__class__":
                 return obj.cls
@@ -1664,6 +2030,8 @@ class Interp:
                 self.unsupported(f"call of builtin {fn.name}", node)
             return fn.impl(self, args, kwargs, node)
         if isinstance(fn, ClassV):
+            if getattr(fn, "enum_members", None) is not None:
+                return self.enum_lookup(fn, args, node)
             return self.instantiate(fn, args, kwargs, node)
         if isinstance(fn, Ext):
             return self.call_ext(fn, args, kwargs, node)
@@ -1692,13 +2060,19 @@ class Interp:
     def call_function(self, f, args, kwargs, node):
         a = f.node.args
         fr = Frame(f.module, f, closure=f.closure, mangle=f.mangle, owner=f.owner)
-        if any(isinstance(x, tuple) and len(x) == 2 and x[0] == "*" and not isinstance(x[1], (int, str)) for x in args if isinstance(x, tuple)):
-            pass
         pos = list(a.posonlyargs) + list(a.args)
         params = [p.arg for p in pos]
         nd = len(f.defaults)
         vals = {}
         args = list(args)
+        stars = [j for j, x in enumerate(args) if isinstance(x, tuple) and len(x) == 2 and x[0] == "*" and isinstance(x[1], Ext)]
+        if stars:
+            # f(*third_party_tuple): the callee's signature fixes how many items the tuple must have
+            need = len(params) - (len(args) - 1) - sum(1 for p in params if p in kwargs)
+            if len(stars) != 1 or a.vararg or nd or need < 0:
+                self.unsupported("*args of unknown length into a signature that does not fix the length", node)
+            j = stars[0]
+            args[j:j + 1] = [self.ext_child(args[j][1], f"[{i}]") for i in range(need)]
         kwargs = dict(kwargs)
         star_kw = kwargs.pop("**", None)
         for i, p in enumerate(params):
@@ -1748,13 +2122,7 @@ class Interp:
             if getattr(f, "is_gen", None) is None:
                 f.is_gen = any(isinstance(n, (ast.Yield, ast.YieldFrom)) for n in ast.walk(f.node))
             if f.is_gen:
-                # generators are evaluated eagerly: the yielded values become a one-shot iterator
-                fr.yields = []
-                try:
-                    self.exec_block(f.node.body, fr)
-                except ReturnEx:
-                    pass
-                return IterV(ListV(fr.yields), None, "generator")
+                return GenV(self, f, fr, node)
             try:
                 self.exec_block(f.node.body, fr)
             except ReturnEx as r:
